@@ -80,7 +80,7 @@ class DiGraph(object):
 ASSUME = ["A3 CPython semantics as encoded by pyvc.interp",
           "K: networkx.DiGraph behaves as the stub contract (nodes/edges/predecessors/successors, topological order SOURCE, layer, SINK)",
           "K: the layer object exposes name/use_bias/get_quantizers/get_weights/output_shape as a Keras layer does",
-          "L-prod/L-sum interval lemmas for products and N-term sums (pure arithmetic)",
+          "L-prod/L-sum interval lemmas for products and N-term sums (pure arithmetic) - proved in lean/Lemmas.lean, re-checked by the thorough tier",
           "quantizer value sets are those of C01/C03/C04 (alpha=None); operation counts are outside this property (C19)"]
 
 LAYERS = {
@@ -414,7 +414,7 @@ ASSUME_AN = ["A3 CPython semantics as encoded by pyvc.interp; A1 real arithmetic
              "K: numpy.ndarray behaves as the NDArray stub contract (shape, [..., i], element-wise * > <, np.sum)",
              "K: unfold_model returns the model unchanged when it has no folded layers",
              "the layer computes out[c] = sum_j q(k)[j, c] * x_j + q(b)[c]; weights are already on the quantizer lattice (q(k) = k)",
-             "L-vertex: a linear function on the box [x_min, x_max]^N attains its extrema at vertices",
+             "L-vertex: a linear function on the box [x_min, x_max]^N attains its extrema at vertices - proved in lean/Lemmas.lean, re-checked by the thorough tier",
              "BOUNDED in the kernel shape and the input range: those listed in the case names; all weight and bias values symbolic (unbounded reals)"]
 
 
